@@ -535,3 +535,54 @@ def rule_outalias(ctx) -> RuleResult:
         res.notes.append("no call with out=<name> in the package")
         res.min_instances = 0
     return res
+
+
+# ---------------------------------------------------------------------------------------------
+# R-INPLACECAST (C19, C01): a floating-point result is never forced in place into a buffer whose dtype the user chose.
+# The flox-engine kernels accumulate into / allocate `out` with the dtype= they are given.  NumPy refuses to store the result of a true division
+# or of an interpolation into an integer buffer under the default same-kind casting (UFuncTypeError, a TypeError): `out /= counts` and
+# `np.add(a, b * t, out=out)` therefore need either a not-in-place form followed by a cast, or casting="unsafe" -- an integer dtype= is legal
+# (np.mean(a, dtype=int16) truncates, and the numpy engine returns exactly that).
+def rule_inplacecast(ctx) -> RuleResult:
+    res = RuleResult("R-INPLACECAST", "float results are not stored in place into a buffer of the requested dtype under same-kind casting", min_instances=2)
+    n = 0
+    for q, f in sorted(ctx.prog.funcs.items()):
+        if not q.startswith("aggregate_flox.") or isinstance(f.node, ast.Lambda) or "dtype" not in f.params:
+            continue
+        # names holding a buffer of the requested dtype: allocated / accumulated with dtype=dtype, or the `out` parameter that is
+        typed = set()
+        for a in walk_own(f.node):
+            if isinstance(a, ast.Assign) and len(a.targets) == 1 and isinstance(a.targets[0], ast.Name) and isinstance(a.value, ast.Call):
+                d = kwarg(a.value, "dtype")
+                if d is not None and norm(d) == "dtype":
+                    typed.add(a.targets[0].id)
+        if "out" in f.params:
+            typed.add("out")
+        for x in walk_own(f.node):
+            if isinstance(x, ast.AugAssign) and isinstance(x.op, ast.Div) and isinstance(x.target, ast.Name) and x.target.id in typed:
+                n += 1
+                res.inst(f"{q}: '{norm(x)[:50]}' divides a buffer of the requested dtype in place", f"{q}|{norm(x)[:30]}")
+                res.report(f"{q}|inplace-true-division|{x.target.id}", f.where(x), q,
+                           f"'{norm(x)[:50]}' stores a true division into '{x.target.id}', which has the dtype the caller asked for: with an integer dtype= NumPy raises "
+                           "UFuncTypeError (\"Cannot cast ufunc 'divide' output from float64 to int16\") on the flox engine, while the numpy engine returns the truncated result")
+            if isinstance(x, ast.Call) and norm(x.func) in ("np.add", "np.subtract", "np.multiply", "np.true_divide", "np.divide") \
+                    and isinstance(kwarg(x, "out"), ast.Name) and kwarg(x, "out").id in typed:
+                n += 1
+                cs = kwarg(x, "casting")
+                ok = isinstance(cs, ast.Constant) and cs.value == "unsafe"
+                floaty = any(isinstance(y, ast.BinOp) and isinstance(y.op, (ast.Mult, ast.Div)) for a_ in x.args for y in ast.walk(a_))
+                res.inst(f"{q}: '{norm(x)[:60]}' into a buffer of the requested dtype: casting='unsafe': {ok}; float-valued operand: {floaty}", f"{q}|{norm(x)[:40]}")
+                if floaty and not ok:
+                    res.report(f"{q}|ufunc-into-requested-dtype|{norm(x.func)}", f.where(x), q,
+                               f"'{norm(x)[:60]}' writes a float-valued result into '{kwarg(x, 'out').id}' (dtype chosen by the caller) under same-kind casting: an integer "
+                               "dtype= raises UFuncTypeError on the flox engine (median / quantile), the numpy engine truncates")
+        for a in walk_own(f.node):
+            # accepted form, listed as an instance: X = (X / counts).astype(X.dtype)
+            if isinstance(a, ast.Assign) and len(a.targets) == 1 and isinstance(a.targets[0], ast.Name) and a.targets[0].id in typed \
+                    and any(isinstance(y, ast.BinOp) and isinstance(y.op, ast.Div) for y in ast.walk(a.value)):
+                n += 1
+                res.inst(f"{q}: '{norm(a)[:60]}': division out of place, cast back", f"{q}|{norm(a)[:40]}")
+    if n == 0:
+        res.notes.append("no in-place float arithmetic on buffers of the requested dtype in the flox engine")
+        res.min_instances = 0
+    return res
